@@ -9,7 +9,13 @@
                  appear on a slice are entered through their return value.  Origins are
                  *owner-qualified field reads*, string literals, callees and unresolved roots.
                  Optionally adds control dependence (the switches that decide whether a
-                 definition on the slice executes, panicking arms not counted).
+                 definition on the slice executes, panicking arms not counted; post-dominator based,
+                 so the exit test of an earlier loop is not a controller).
+* `pslice`     — backward slice that keeps the residual projection through moves / references / tuples
+                 (needed after helper inlining) and treats `&mut`-receiving calls and stores through
+                 borrows as definitions (accumulators filled in loops); `Flow(.., precise=True)` uses it.
+* `mut_borrows` / `mutators` / `map_stores` — which place a `&mut` local borrows, every call / store that
+                 mutates through one, and `m[k] = v` in its insert / entry().or_insert* spellings.
 
 Everything is an over-approximation used for presence / exact-set comparison against frozen
 tables: an extra origin can raise an alarm, a missing one cannot be hidden by it.
